@@ -12,8 +12,8 @@ Three sub-streams (two exact ones, compared as strings, and a float one).
   ≈ 10 % malformed: partially known tables (`ValueError` from `get_value(s)`), too-short singleton info
   (`IndexError` in `denormalize_game`); only the error kind is compared.
 
-*tolerance window* (exact) — the repaired `_normalize_icg` does not scale when
-  `np.isclose(surplus + Σ, Σ, rtol=1e-9, atol=0)` (Σ = sum of the singleton values), in exact arithmetic
+*tolerance window* (exact) — the repaired `_normalize_icg` treats a game as additive, and stores the zero game,
+  when `np.isclose(surplus + Σ, Σ, rtol=1e-9, atol=0)` (Σ = sum of the singleton values), in exact arithmetic
   `|surplus| ≤ Fraction(1e-9)·|Σ|`.  Games `v(c) = Σ_{i∈c} a_i + s·u(c)` with integer / dyadic singletons `a_i` of
   many magnitudes and signs (|Σ| from ~1 to ~2^46, also cancelling to 0), `u` a dyadic convex combination of
   unanimity games (superadditive, zero singletons, `u(N) = 1`) and the surplus `s ≥ 0` placed relative to the
@@ -24,11 +24,10 @@ Three sub-streams (two exact ones, compared as strings, and a float one).
   `surplus + Σ − Σ` is the exact surplus), and if the one inexact operation, the float product `1e-9*|Σ|`, puts
   the surplus on the same side as the exact product does.  The real answers are compared as strings with the
   model (`norm icg`, every second time with the tolerance passed explicitly as `Fraction(1e-9)`, `norm closed`,
-  `norm denorm`).  Oracle: a game inside the window `0 < s ≤ Fraction(1e-9)·|Σ|` is out of the property's scope
-  (the code deliberately returns the unscaled game there; counted as `window:in`, and
-  `window:in:roundtrip-off-{within,beyond}-1e-9` when `denormalize_game` then does not restore the values — in
-  exact arithmetic it cannot unless s = 1, see `ICG.C15.denormalize_window`; the `norm denorm` line is compared
-  only when that computation is float-exact as well); outside the window the usual clauses with no tolerance at all.
+  `norm denorm`).  Oracle, with no tolerance at all: the usual clauses for every case, inside the window
+  `0 < s ≤ Fraction(1e-9)·|Σ|` too (there "identically 0" is the clause that must hold; counted as `window:in`);
+  the round trip must be exact outside the window and within `1e-9·|Σ|` (+ 8 ulp of the largest value) inside it
+  (`ICG.C15.denormalize_window`: the restored value is `v c − w c`).
 
 *float*  — every key of the live `GENERATORS` registry (except `convex`; a generator that raises is out of
   C15's scope and only counted), n = 3..5, seeds from `rnd`; graph games in both representations.  No
@@ -39,7 +38,8 @@ Three sub-streams (two exact ones, compared as strings, and a float one).
 Oracle (run on the REAL code for every case, independent of the model), for a game accepted by the
 library's own `is_superadditive`:  every singleton 0;  every value in [0,1];  grand coalition 1, or the game
 identically 0 (additive input);  `is_superadditive` again;  graph form and tabulated form give the same
-values;  `denormalize_game` with the returned info restores the original values.
+values;  `denormalize_game` with the returned info restores the original values (float sub-stream: to
+1e-9·max(1, max|v|) + 1e-9·|Σ singletons|, the second term being the code's own additivity tolerance).
 A failed clause on a game whose exact surplus is 0 or |surplus| ≤ 1e-9·scale is the float-additive defect,
 key `normalize:float-additive-residue`; any other failure has key `normalize:<clause>`.
 
@@ -103,6 +103,15 @@ def oracle(n, values, matrix=None, exact=False):
     scale = float(max(1.0, np.max(np.abs(orig)))) if not exact else 0.0
     tol = 0.0 if exact else TOL
     atol = tol * max(1.0, scale)
+    # round trip: a game the code treats as additive (|surplus| <= 1e-9·|Σ singletons|) is restored without its
+    # surplus, i.e. to within 1e-9·|Σ|; exact inputs get that allowance only inside the window
+    surplus_x, _ = exact_surplus(orig, n)
+    sigma_x = abs(sum((frac(orig[1 << i]) for i in range(n)), Fraction(0)))
+    if exact:
+        in_window = 0 < abs(surplus_x) <= RTOL * sigma_x
+        rt_tol = (float(RTOL * sigma_x) * (1 + 1e-12) + 8 * np.finfo(float).eps * float(np.max(np.abs(orig)))) if in_window else 0.0
+    else:
+        rt_tol = tol * max(1.0, scale) + TOL * float(sigma_x) * (1 + 1e-9)
     bad = []
     reps = [("table", table_game(n, orig))]
     if matrix is not None:
@@ -148,7 +157,7 @@ def oracle(n, values, matrix=None, exact=False):
             warnings.simplefilter("ignore")
             NZ.denormalize_game(g, info)
             back = np.array(g.get_values(), dtype=float)
-        if not np.all(np.abs(back - orig) <= tol * max(1.0, scale)):
+        if not np.all(np.abs(back - orig) <= (rt_tol if name == "table" else tol * max(1.0, scale))):
             bad.append(("denormalize-does-not-restore", {"rep": name,
                                                          "maxdiff": float(np.max(np.abs(back - orig)))}))
     if len(normed) == 2 and all(np.all(np.isfinite(v)) for v in normed.values()):
@@ -279,33 +288,31 @@ def float_exact_trace(n, v):
     operation is the float product `1e-9 * |Σ|` inside `np.isclose`; it is evaluated in float here, and the case is
     rejected if it puts the surplus on the other side than the exact product `Fraction(1e-9)·|Σ|` does.
 
-    Returns (reason, additive, denorm_exact): reason None = every step of `normalize_game` is exact; additive =
-    the exact verdict of the guard; denorm_exact = every step of `denormalize_game` on the result is exact too
-    (inside the window it forms `w(c)·w(N)`, a product with twice the bits, which often is not).
+    Returns (reason, additive): reason None = every step is exact; additive = the exact verdict of the guard.
     """
     N = 2 ** n
     ok = common_is_exact
     if not all(ok(x) for x in v):
-        return "input", None, False
+        return "input", None
     singles = [v[1 << i] for i in range(n)]
     total = Fraction(0)
     for x in singles:                       # np.sum: (pairwise) float additions; all partial sums must be exact
         total += x
         if not ok(total):
-            return "sum", None, False
+            return "sum", None
     if not all(ok(sum(singles[i:j], Fraction(0))) for i in range(n) for j in range(i + 1, n + 1)):
-        return "sum", None, False
+        return "sum", None
     surplus = v[N - 1] - total
     if not ok(surplus) or not ok(surplus + total) or (surplus + total) - total != surplus:
-        return "surplus", None, False
+        return "surplus", None
     # the float computation of the guard, literally, and its comparison with the exact one
     fs, ft = float(surplus), float(total)
     if Fraction((fs + ft) - ft) != surplus:
-        return "surplus", None, False
+        return "surplus", None
     additive_float = bool(abs((fs + ft) - ft) <= 0.0 + 1e-9 * abs(ft))
     additive = abs(surplus) <= RTOL * abs(total)
     if additive_float != additive:
-        return "threshold-rounding", None, False
+        return "threshold-rounding", None
     w = list(v)
     for i in range(n):
         sv = w[1 << i]
@@ -313,22 +320,24 @@ def float_exact_trace(n, v):
             if c >> i & 1:
                 w[c] = w[c] - sv
                 if not ok(w[c]):
-                    return "subtract", None, False
+                    return "subtract", None
     g = w[N - 1]
-    if g != 0 and not additive:
+    if additive:
+        w = [Fraction(0)] * N                # game.set_values(np.zeros(2**n))
+    elif g != 0:
         w = [x / g for x in w]
         if not all(ok(x) for x in w):
-            return "divide", None, False
+            return "divide", None
     for c in range(N):
         val = w[c] * surplus
         if not ok(val):
-            return None, additive, False
+            return "denormalize", None
         for i in range(n):
             if c >> i & 1:
                 val += singles[i]
                 if not ok(val):
-                    return None, additive, False
-    return None, additive, True
+                    return "denormalize", None
+    return None, additive
 
 
 def common_is_exact(x):
@@ -527,10 +536,8 @@ def run(tier: str, budget: Budget, rnd, arg) -> StreamResult:
         N = 2 ** n
         pos = WINDOW_POSITIONS[k % len(WINDOW_POSITIONS)]
         label, v, s, thr = window_game(n, rnd, pos)
-        reason, additive, denorm_exact = float_exact_trace(n, v)
+        reason, additive = float_exact_trace(n, v)
         where = "zero" if s == 0 else ("in" if s <= thr else "out")
-        if reason is None and not denorm_exact and where != "in":
-            reason = "denormalize"          # outside the window the oracle checks the round trip with no tolerance
         if reason is not None:
             res.count(f"window:dropped:not-float-exact:{reason}")
             continue
@@ -554,40 +561,32 @@ def run(tier: str, budget: Budget, rnd, arg) -> StreamResult:
         if info is not None:
             normed = [frac(x) for x in g.get_values()]
             script.add(f"norm closed {n} {rlist(v)}", f"V={rlist(normed)}", ctx)
-            scaled = where == "out"
-            if s != 1 and (normed[N - 1] == 1) != scaled:
-                res.count("window:code-branch-differs-from-exact-window")      # would also show up as a disagreement
+            # the real code's branch against the exact window (only counted: the property does not fix the
+            # tolerance; a different branch shows up as a disagreement with the model)
+            if (normed[N - 1] == 1) != (where == "out") or (where != "out" and any(x != 0 for x in normed)):
+                res.count("window:code-branch-differs-from-exact-window")
             NZ.denormalize_game(g, info)
             back = [frac(x) for x in g.get_lower_bounds()]
-            if denorm_exact:
-                script.add(f"norm denorm {n} {rs(info[0])} {rlist(info[1])} {rlist(normed)}",
-                           f"L={rlist(back)} U={rlist(g.get_upper_bounds())}", ctx)
-            else:
-                res.count("window:in:denormalize-not-float-exact(not compared)")
+            script.add(f"norm denorm {n} {rs(info[0])} {rlist(info[1])} {rlist(normed)}",
+                       f"L={rlist(back)} U={rlist(g.get_upper_bounds())}", ctx)
             if where == "in":
-                # out of the property's scope: the unscaled game is returned on purpose
-                scale = max(abs(x) for x in v)
                 err = max(abs(b - x) for b, x in zip(back, v))
-                if err > Fraction(TOL) * scale:
-                    res.count("window:in:roundtrip-off-beyond-1e-9")
-                    worst_rt = max(worst_rt, err / scale)
-                elif err:
-                    res.count("window:in:roundtrip-off-within-1e-9")
-            else:
-                report(res, n, fv, None, oracle(n, fv, exact=True), f"window:{pos}:{label}")
-                if n >= 3 and s != 0 and any(v[1 << i] != 0 for i in range(n)) and len(set(normed)) >= 3:
-                    key = ("w", tuple(v))
-                    if key not in seen:
-                        seen.add(key)
-                        res.nontrivial.add(key)
+                res.count("window:in:roundtrip-error-is-the-surplus" if err == s else "window:in:roundtrip-error-other")
+                if thr:
+                    worst_rt = max(worst_rt, err / thr)
+            report(res, n, fv, None, oracle(n, fv, exact=True), f"window:{pos}:{label}")
+            if where == "out" and n >= 3 and any(v[1 << i] != 0 for i in range(n)) and len(set(normed)) >= 3:
+                key = ("w", tuple(v))
+                if key not in seen:
+                    seen.add(key)
+                    res.nontrivial.add(key)
         if k < 14:
             res.sample({"n": n, "kind": ctx["kind"], "values": ctx["values"], "surplus/threshold":
                         (float(s / thr) if thr else None), "answer": ans}, limit=6)
         res.evaluations += 1
     if worst_rt:
-        res.notes.append("inside the tolerance window 0 < surplus <= Fraction(1e-9)*|sum of singletons| (out of scope) "
-                         "denormalize_game does not restore the game: largest error / max|value| seen = "
-                         f"{float(worst_rt):.3g}")
+        res.notes.append("inside the tolerance window the round trip returns the game without its surplus: largest "
+                         f"error / (Fraction(1e-9)*|sum of singletons|) seen = {float(worst_rt):.6g} (must be <= 1)")
 
     # ---------------------------------------------------------------- float sub-stream
     keys = [k for k in GENERATORS if k != "convex"]
